@@ -17,6 +17,8 @@ import (
 	"net/http"
 	"net/http/httptest"
 	"runtime"
+	"sync/atomic"
+	"time"
 
 	"git.arvados.org/arvados.git/sdk/go/ctxlog"
 	"github.com/sirupsen/logrus"
@@ -82,6 +84,61 @@ func (b *ksSlowBody) Read(p []byte) (int, error) {
 
 func (b *ksSlowBody) Close() error { return nil }
 
+// ksFailBody: an upload that does not arrive completely.  It delivers data, calls hook (other requests
+// run while this one holds its buffer with half a body in it), and then ends with err: io.EOF = the
+// client closed its side early (body shorter than its Content-Length), anything else = the connection
+// broke.
+type ksFailBody struct {
+	data  []byte
+	pos   int
+	err   error
+	hook  func()
+	fired bool
+}
+
+func (b *ksFailBody) Read(p []byte) (int, error) {
+	if b.pos < len(b.data) {
+		n := copy(p, b.data[b.pos:])
+		b.pos += n
+		return n, nil
+	}
+	if !b.fired {
+		b.fired = true
+		if b.hook != nil {
+			b.hook()
+		}
+	}
+	return 0, b.err
+}
+
+func (b *ksFailBody) Close() error { return nil }
+
+// ksGuard runs f (a request) and reports whether it returned.  A handler that never returns (e.g. one
+// blocked for ever in the buffer pool's accounting) must become an observation, not a test timeout: the
+// first request of a test process that does not return is given 30 s (far beyond anything a request
+// takes here, also under heavy load), later ones 1 s (by then the run has failed anyway; waiting longer
+// would only make the failing run slower).  The goroutine of a request that did not return is abandoned.
+var ksHangs int32
+
+func ksGuard(f func()) bool {
+	done := make(chan struct{})
+	go func() {
+		defer close(done)
+		f()
+	}()
+	limit := 30 * time.Second
+	if atomic.LoadInt32(&ksHangs) > 0 {
+		limit = time.Second
+	}
+	select {
+	case <-done:
+		return true
+	case <-time.After(limit):
+		atomic.AddInt32(&ksHangs, 1)
+		return false
+	}
+}
+
 // ksOneP runs f with GOMAXPROCS(1).
 func ksOneP(f func()) {
 	prev := runtime.GOMAXPROCS(1)
@@ -95,17 +152,24 @@ func ksOneP(f func()) {
 type ksPool struct {
 	p    *bufferPool
 	news int // calls of Pool.New = buffers handed out that were not taken from the pool
+	held [][]byte
 }
 
 var ksPoolBacking [][]byte
 
-func ksInstallPool(log logrus.FieldLogger, count int) *ksPool {
+func ksInstallPool(log logrus.FieldLogger, count int) *ksPool { return ksInstallPoolHeld(log, count, 0) }
+
+// ksInstallPoolHeld: as ksInstallPool, with `held` more buffers that are taken right away and kept for
+// the whole case: requests of other clients that stay in flight (a slow download, say).  They matter
+// only to the pool's accounting: a handler that gives a buffer back twice then does not block in its
+// second Put (nobody would notice: its client is gone), and the pool really holds the buffer twice.
+func ksInstallPoolHeld(log logrus.FieldLogger, count, held int) *ksPool {
 	k := &ksPool{}
-	k.p = newBufferPool(log, count, BlockSize)
+	k.p = newBufferPool(log, count+held, BlockSize)
 	k.p.Pool.New = func() interface{} {
 		n := k.news
 		k.news++
-		for len(ksPoolBacking) <= n && len(ksPoolBacking) < 4 {
+		for len(ksPoolBacking) <= n && len(ksPoolBacking) < 6 {
 			ksPoolBacking = append(ksPoolBacking, make([]byte, BlockSize))
 		}
 		if n < len(ksPoolBacking) {
@@ -114,6 +178,9 @@ func ksInstallPool(log logrus.FieldLogger, count int) *ksPool {
 		return make([]byte, BlockSize)
 	}
 	bufs = k.p
+	for i := 0; i < held; i++ {
+		k.held = append(k.held, k.p.Get(BlockSize))
+	}
 	return k
 }
 
